@@ -247,23 +247,17 @@ Proof.
 Qed.
 
 (* ================= address families ================= *)
-Definition families_statement : Prop :=
-  forall ipv4 ipv6 h6, families_refused ipv4 ipv6 h6 = false ->
-    honours ipv4 ipv6 (families_value ipv4 ipv6 h6).
+(* both families disabled is refused; everything that is not refused hands getaddrinfo a
+   family that allows exactly the enabled ones *)
+Lemma families_full : forall ipv4 ipv6 h6,
+  (ipv4 = false -> ipv6 = false -> families_refused ipv4 ipv6 h6 = true)
+  /\ (families_refused ipv4 ipv6 h6 = false -> honours ipv4 ipv6 (families_value ipv4 ipv6 h6)).
+Proof. intros [] [] []; cbv; split; intros; try discriminate; try split; reflexivity. Qed.
 
-Lemma families_partial : forall ipv4 ipv6 h6,
-  ipv4 || ipv6 = true -> families_refused ipv4 ipv6 h6 = false ->
-  honours ipv4 ipv6 (families_value ipv4 ipv6 h6).
-Proof. intros [] [] []; cbv; intros H1 H2; try discriminate; split; reflexivity. Qed.
-
-(* ipv4=False, ipv6=False is neither refused nor honoured: AF_UNSPEC, i.e. both *)
-Lemma families_refuted :
-  families_refused false false true = false /\ families_value false false true = FamUnspec
-  /\ ~ families_statement.
-Proof.
-  split; [reflexivity|]. split; [reflexivity|].
-  intro H. specialize (H false false true eq_refl). destruct H as [H _]. discriminate H.
-Qed.
+Example families_some : families_refused false false true = true
+  /\ families_refused true false true = false /\ families_value true false true = FamInet
+  /\ families_value false true true = FamInet6 /\ families_value true true false = FamUnspec.
+Proof. repeat split; reflexivity. Qed.
 
 (* ================= host / port override, truthy, defaults ================= *)
 Lemma hostport_table : forall hm pm, hostport_override hm pm = hostport_spec hm pm.
@@ -304,8 +298,8 @@ Definition accepted_ok (e : env) (kw : kwargs) (a : attrs) : Prop :=
   /\ (forall k, In k (map fst kw) -> In k (map fst params))
   /\ ~ proxy_conflict (attr_tp_none a) (attr_tpc_none a) (attr_headers a)
   /\ ~ socks_conflict e (attr_sockets a)
-  /\ (attr_ipv4 a || attr_ipv6 a = true ->
-      honours (attr_ipv4 a) (attr_ipv6 a) (families_value (attr_ipv4 a) (attr_ipv6 a) (has_ipv6 e))).
+  /\ (attr_ipv4 a || attr_ipv6 a = true)
+  /\ honours (attr_ipv4 a) (attr_ipv6 a) (families_value (attr_ipv4 a) (attr_ipv6 a) (has_ipv6 e)).
 
 Lemma construct_ok_sound : forall e kw a', construct e kw = Ok a' ->
   exists a, assign_loop kw [] = Ok a /\ accepted_ok e kw a.
@@ -333,10 +327,12 @@ Proof.
           destruct x3; [rewrite dict_get_set_neq by reflexivity|]];
         (destruct (proxy_count_defaulted _ _ _ _ _ _); [rewrite dict_get_set_neq by reflexivity|]); reflexivity. }
       rewrite El in Ec. intro Hc. apply check_sockets_spec in Hc. rewrite Hc in Ec. discriminate.
-    + intro Hor. apply families_partial; [exact Hor|].
-      unfold attr_ipv4, attr_ipv6.
-      assert (D4 : default_ipv4 = true) by reflexivity. assert (D6 : default_ipv6 = true) by reflexivity.
-      rewrite D4, D6 in Ef. exact Ef.
+    + assert (D4 : default_ipv4 = true) by reflexivity. assert (D6 : default_ipv6 = true) by reflexivity.
+      rewrite D4, D6 in Ef. fold (attr_ipv4 a) in Ef. fold (attr_ipv6 a) in Ef.
+      destruct (families_full (attr_ipv4 a) (attr_ipv6 a) (has_ipv6 e)) as [F1 F2].
+      split; [|apply F2; exact Ef].
+      destruct (attr_ipv4 a); [reflexivity|]. destruct (attr_ipv6 a); [reflexivity|].
+      rewrite F1 in Ef by reflexivity. discriminate.
 Qed.
 
 (* ================= middleware switch (server.py) ================= *)
